@@ -320,6 +320,27 @@ def check_keys(ctx, it):
             allns |= set(info[k][0][:3])
     ctx.ob("R09.5", "cw4-group snapshot namespaces pairwise distinct", len(allns) == 6, detail="namespaces collide: %s" % sorted(allns),
            sample={"namespaces": sorted(allns)})
+    # the cw4 helper other contracts use for raw reads must address the same two namespaces
+    H = "cw4::helpers::Cw4Contract::"
+    for fn, want, kind in ((H + "total_weight", "TOTAL_KEY", "Item::query"), (H + "is_member", "MEMBERS_KEY", "Map::query")):
+        if not ctx.ob("R09.5", "anchor:%s" % fn.split("::")[-1], fn in ctx.facts.bodies, trivial=True, detail="%s not found" % fn):
+            continue
+        good = False
+        seen_ns = []
+        for p_ in ctx.summarise(fn):
+            for x in walk(p_.ret):
+                if x[0] == "call" and x[1] == kind:
+                    src = x[2][0]
+                    if src[0] == "call" and src[1].endswith("::new") and src[2] and src[2][0][0] == "str":
+                        seen_ns.append(src[2][0][1])
+                        # raw read of the group contract itself (self.addr()) and, for members, keyed by the member address
+                        addr_ok = x[2][1] == ("field", ("param", "self"), "0")
+                        key_ok = kind != "Map::query" or x[2][2] == ("param", "member")
+                        if src[2][0][1] == cw4c[want] and addr_ok and key_ok:
+                            good = True
+        ctx.ob("R09.5", "Cw4Contract::%s reads raw %s" % (fn.split("::")[-1], want), good,
+               detail="Cw4Contract::%s raw-queries namespace(s) %s of the group; the groups store it under %r"
+                      % (fn.split("::")[-1], seen_ns, cw4c[want]), sample={"namespace": seen_ns})
     # member_key length prefix
     mk = "cw4::query::member_key"
     if ctx.ob("R09.5", "anchor:member_key", mk in ctx.facts.bodies, trivial=True, detail="cw4 member_key not found"):
